@@ -3,6 +3,8 @@ package hellospec
 
 import (
 	"encoding/hex"
+	"fmt"
+	"net"
 	"strconv"
 	"strings"
 
@@ -105,4 +107,42 @@ func (d Desc) Spec() *utls.ClientHelloSpec {
 		}
 	}
 	return s
+}
+
+// RawLen marshals the hello this description stands for (throw-away random, key shares and session id - their lengths are what
+// matters) and returns the length of the handshake message, i.e. of the payload of the one TLS record that carries it.
+func (d Desc) RawLen() (int, error) {
+	a, b := net.Pipe()
+	defer a.Close()
+	defer b.Close()
+	sni := d.SNI
+	if sni == "" {
+		sni = "vf.test" // what stack.DialUTLS names when the description does not say
+	}
+	uc := utls.UClient(a, &utls.Config{InsecureSkipVerify: true, ServerName: sni, NextProtos: d.ALPN}, utls.HelloCustom)
+	if err := uc.ApplyPreset(d.Spec()); err != nil {
+		return 0, err
+	}
+	if err := uc.BuildHandshakeState(); err != nil {
+		return 0, err
+	}
+	return len(uc.HandshakeState.Hello.Raw), nil
+}
+
+// PadTo adds a padding extension (type 21) so that the handshake message is exactly n octets long.
+func (d Desc) PadTo(n int) (Desc, error) {
+	l0, err := d.RawLen()
+	if err != nil {
+		return d, err
+	}
+	pad := n - l0 - 4
+	if pad < 0 {
+		return d, fmt.Errorf("hello already %d octets", l0)
+	}
+	c := d.Clone()
+	c.Exts = append(c.Exts, "generic:0015:"+strings.Repeat("00", pad))
+	if l, err := c.RawLen(); err != nil || l != n {
+		return d, fmt.Errorf("padded hello is %d octets, wanted %d (%v)", l, n, err)
+	}
+	return c, nil
 }
